@@ -83,7 +83,7 @@ theorem copyB_same (mw : List α) (a b : RVal α) (h : b.basis = a.basis) :
 
 theorem compat_same (mw : List α) (a b : RVal α) (hbasis : b.basis = a.basis) (hph : a.ph = b.ph)
     (hr : a.ridx = b.ridx) : a.compat mw b = .ok b := by
-  simp [RVal.compat, copyB_same mw a b hbasis, bind, Except.bind, hph, hr, pure, Except.pure]
+  simp [RVal.compat, copyB_same mw a b hbasis, hph, hr]
 
 theorem addSub_noReaction (mw : List α) (sub : Bool) (a b : RVal α) (h : b.hasReaction = false) :
     a.addSub mw sub (some b) = .ok a := by
@@ -96,7 +96,7 @@ theorem addSub_ok (mw : List α) (sub : Bool) (a b : RVal α) (hreact : b.hasRea
     a.addSub mw sub (some b) =
       .ok { a with v := (comb sub a.v a.x b.v b.x).map (· / sgn sub a.x b.x), x := sgn sub a.x b.x } := by
   have hc := combineV_ok sub a.v b.v a.x b.x b.ridx (hr ▸ ha) hb hx
-  simp [RVal.addSub, hreact, compat_same mw a b hbasis hph hr, bind, Except.bind, hc, pure, Except.pure, sgn]
+  simp [RVal.addSub, hreact, compat_same mw a b hbasis hph hr, hc, sgn]
 
 theorem comb_length (sub : Bool) (va vb : List α) (xa xb : α) (h : va.length = vb.length) :
     (comb sub va xa vb xb).length = va.length := by simp [comb, h]
@@ -415,10 +415,9 @@ theorem addSub_fields (mw : List α) (sub : Bool) (a : RVal α) (b : Option (RVa
   · simp at h; subst h; simp
   · split at h
     · simp at h; subst h; simp
-    · simp only [bind, Except.bind] at h
+    · split at h; · simp at h
       split at h; · simp at h
-      split at h; · simp at h
-      simp [pure, Except.pure] at h; subst h; simp
+      simp at h; subst h; simp
 
 theorem valOf_of_rxn? {s : Store α} {a : Nat} {r : Rxn α} (h : s.rxn? a = .ok r) :
     s.valOf a = .ok (s.val r) := by
@@ -467,6 +466,97 @@ theorem rebind_valOf (s : Store α) (a : Nat) (r : Rxn α) (v : List α) (x : α
     | shared xa i => rw [hx] at hr; simpa [XRef.WF, hx] using hr
   rw [writeX_valOf _ a _ x (by simpa using ha) hr']
   simp [Store.arr, List.getD]
+
+/-! ### Normalised values -/
+
+/-- a reaction value is *normal* when its stoichiometry is normalised on its reactant (`ν[r] = -1`) or empty -/
+def RVal.Normal (a : RVal α) : Prop := a.v.getD a.ridx 0 = -1 ∨ allZero a.v = true
+
+theorem getD_map_div (s : List α) (c : α) (r : Nat) : (s.map (· / c)).getD r 0 = s.getD r 0 / c := by
+  by_cases hr : r < s.length
+  · simp [List.getD, hr]
+  · simp [List.getD, Nat.not_lt.mp hr]
+
+theorem map_div_neg_getD (s : List α) (r : Nat) (h : s.getD r 0 ≠ 0) :
+    (s.map (· / -(s.getD r 0))).getD r 0 = -1 := by
+  rw [getD_map_div]
+  field_simp
+
+theorem rescale_def (v : List α) (r : Nat) :
+    rescale v r = if -(v.getD r 0) = 0 then .error .runtimeError else .ok (v.map (· / -(v.getD r 0))) := rfl
+
+theorem rescale_normal (v v' : List α) (r : Nat) (h : rescale v r = .ok v') : v'.getD r 0 = -1 := by
+  rw [rescale_def] at h
+  split at h
+  · exact absurd h (by simp)
+  · rename_i hsc
+    have := Except.ok.inj h; subst this
+    exact map_div_neg_getD v r (fun e => hsc (by rw [e]; simp))
+
+theorem copyB_normal (mw : List α) (a c : RVal α) (b : BArg) (ha : a.Normal) (h : a.copyB mw b = .ok c) :
+    c.Normal ∧ c.ridx = a.ridx ∧ c.ph = a.ph := by
+  unfold RVal.copyB at h
+  split at h
+  · simp at h; subst h; exact ⟨ha, rfl, rfl⟩
+  · simp at h
+  · split at h
+    · simp at h; subst h; exact ⟨ha, rfl, rfl⟩
+    · split at h; · simp at h
+      rename_i v' hv
+      simp at h; subst h
+      exact ⟨Or.inl (rescale_normal _ _ _ hv), rfl, rfl⟩
+  · split at h
+    · simp at h; subst h; exact ⟨ha, rfl, rfl⟩
+    · split at h; · simp at h
+      rename_i v' hv
+      simp at h; subst h
+      exact ⟨Or.inl (rescale_normal _ _ _ hv), rfl, rfl⟩
+
+theorem combineV_normal (sub : Bool) (va vb : List α) (xa xb : α) (r : Nat) (v : List α)
+    (h : combineV sub va xa vb xb r = .ok v) : v.getD r 0 = -1 ∨ allZero v = true := by
+  rw [combineV_def] at h
+  split at h
+  · rename_i hz; have := Except.ok.inj h; subst this; exact Or.inr hz
+  · split at h
+    · exact absurd h (by simp)
+    · rename_i hd
+      have := Except.ok.inj h; subst this
+      exact Or.inl (map_div_neg_getD _ r (fun e => hd (by rw [e]; simp)))
+
+theorem compat_ridx (mw : List α) (a b b' : RVal α) (h : a.compat mw b = .ok b') : b'.ridx = a.ridx := by
+  unfold RVal.compat at h
+  split at h; · simp at h
+  split at h; · simp at h
+  split at h; · simp at h
+  rename_i hr
+  simp at h; subst h
+  simp only [ne_eq, not_not] at hr
+  exact hr.symm
+
+theorem addSub_normal (mw : List α) (sub : Bool) (a : RVal α) (b : Option (RVal α)) (c : RVal α)
+    (ha : a.Normal) (h : a.addSub mw sub b = .ok c) : c.Normal := by
+  unfold RVal.addSub at h
+  split at h
+  · simp at h; subst h; exact ha
+  · split at h
+    · simp at h; subst h; exact ha
+    · split at h; · simp at h
+      rename_i b' hb'
+      split at h; · simp at h
+      rename_i v hv
+      simp at h; subst h
+      have := combineV_normal _ _ _ _ _ _ _ hv
+      rw [compat_ridx mw a _ b' hb'] at this
+      exact this
+
+theorem backwards_normal (nchem : Nat) (a c : RVal α) (r : Option Nat) (x : Option α)
+    (h : a.backwards nchem r x = .ok c) : c.Normal := by
+  unfold RVal.backwards at h
+  split at h; · simp at h
+  split at h; · simp at h
+  rename_i v' hv
+  simp at h; subst h
+  exact Or.inl (rescale_normal _ _ _ hv)
 
 /-- ids of the stoichiometry arrays an object holds -/
 def Obj.arrIds : Obj α → List Nat
@@ -533,5 +623,83 @@ theorem run_wf (ops : List (Op α)) : ∀ (s : Store α), s.WF → (s.run ops).W
     split
     · rename_i s' k hs; exact ih s' (step_wf s s' op k h hs)
     · exact ih s h
+
+/-! ### Helpers for the property statements -/
+
+theorem hasReaction_false_x (b : RVal α) (r : Nat) (hb : b.v.getD r 0 = -1) (h : b.hasReaction = false) :
+    b.x = 0 := by
+  have hz : allZero b.v = false := allZero_false_of_getD_ne b.v r (by rw [hb]; simp)
+  simpa [RVal.hasReaction, hz] using h
+
+
+/-- what an operation leaves behind, as a value: the fields of the object it returns (or the error) -/
+def outcome (s : Store α) (op : Op α) : Except Err (RVal α) :=
+  match s.step op with
+  | .error e => .error e
+  | .ok (s', k) => s'.valOf k
+
+theorem lt_of_rxn? {s : Store α} {a : Nat} {r : Rxn α} (h : s.rxn? a = .ok r) : a < s.objs.length := by
+  have := rxn?_ok h
+  exact (List.getElem?_eq_some_iff.mp this).1
+
+theorem outcome_pure (s : Store α) (op : Op α) (r : Except Err (RVal α)) (hp : s.pureOp op = some r) :
+    outcome s op = r := by
+  unfold outcome
+  rw [step_pure s op r hp]
+  cases r with
+  | error e => rfl
+  | ok a => simp [Except.bind, newRxn_valOf]
+
+theorem iaddSub_eq_binary (s : Store α) (hwf : s.WF) (sub : Bool) (a : Nat) (b : Option Nat) :
+    outcome s (if sub then .isub a b else .iadd a b) = outcome s (if sub then .sub a b else .add a b) := by
+  have hR : outcome s (if sub then .sub a b else .add a b)
+      = (do (← s.valOf a).addSub s.mw sub (← s.optVal b)) := by
+    cases sub <;> exact outcome_pure s _ _ rfl
+  have hL : outcome s (if sub then .isub a b else .iadd a b)
+      = (match s.iaddSubOp sub a b with | .error e => .error e | .ok (s', k) => s'.valOf k) := by
+    cases sub <;> rfl
+  rw [hR, hL]
+  unfold Store.iaddSubOp
+  cases hra : s.rxn? a with
+  | error e => simp [valOf_error hra, bind, Except.bind]
+  | ok ra =>
+    rw [valOf_of_rxn? hra]
+    have ha := lt_of_rxn? hra
+    have hx := (rxn_wf_of_ok hwf hra).2
+    cases hb : s.optVal b with
+    | error e => simp [bind, Except.bind]
+    | ok ob =>
+      cases ob with
+      | none => simp [bind, Except.bind, RVal.addSub, valOf_of_rxn? hra]
+      | some vb =>
+        cases hre : vb.hasReaction
+        · simp [bind, Except.bind, addSub_noReaction _ _ _ _ hre, hre, valOf_of_rxn? hra]
+        · simp only [bind, Except.bind, hre, Bool.not_true, Bool.false_eq_true, if_false]
+          cases hr : (s.val ra).addSub s.mw sub (some vb) with
+          | error e => rfl
+          | ok r =>
+            obtain ⟨h1, h2, h3⟩ := addSub_fields _ _ _ _ _ hr
+            simp only []
+            rw [rebind_valOf s a ra r.v r.x ha hx]
+            congr 1
+            apply RVal.ext <;> simp [Store.val] at * <;> simp [*]
+
+
+/-- cell `i` of X array `xa` -/
+def cell (s : Store α) (xa i : Nat) : α := (s.xarrs.getD xa []).getD i 0
+
+
+theorem valOf_normal (s : Store α) (hin : ∀ id r, s.rxn? id = .ok r → (s.val r).Normal) (a : Nat) (v : RVal α)
+    (h : s.valOf a = .ok v) : v.Normal := by
+  cases hr : s.rxn? a with
+  | error e => rw [valOf_error hr] at h; simp at h
+  | ok r => rw [valOf_of_rxn? hr] at h; cases h; exact hin a r hr
+
+
+/-- the operations whose result must not share anything with what exists: the arithmetic, `copy`,
+`backwards`, the constructors (everything `pureOp` covers) and `reduce` -/
+def makesFresh (s : Store α) (op : Op α) : Prop :=
+  (s.pureOp op).isSome ∨ ∃ sid order, op = .reduce sid order
+
 
 end ThermoVerif.ReactionAlgebra
